@@ -107,10 +107,29 @@ func varargsElems(tb *TB, t *Term) []*Term {
 	tb.curLoad = nil
 	defer func() { tb.curLoad = saved }()
 	var out []*Term
-	for i := 0; i < 8; i++ {
+	// the literal's length is the array's; an element never stored is the zero value (the compiler stores no zeros
+	// into a fresh array: []Algorithm{SHA1, …} with SHA1 == 0)
+	n, elemInt := int64(8), false
+	if pt, ok := a.Type().Underlying().(*types.Pointer); ok {
+		if at, ok := pt.Elem().Underlying().(*types.Array); ok {
+			n = at.Len()
+			if b, isB := at.Elem().Underlying().(*types.Basic); isB && b.Info()&types.IsInteger != 0 {
+				elemInt = true
+			}
+			if n > 64 {
+				n = 64
+			}
+		} else {
+			n = 8
+		}
+	}
+	for i := int64(0); i < n; i++ {
 		e := tb.cellContent(a, t.Args[0], []string{fmt.Sprintf("[%d]", i)}, nil)
 		if e.Op == "zero" {
-			break
+			if !elemInt {
+				break
+			}
+			e = mk("const", "0")
 		}
 		out = append(out, e)
 	}
@@ -227,7 +246,7 @@ func runC16(c *Check, w *World) {
 			if t.Op != "call" || !strings.HasSuffix(t.Sym, "Algorithm).String") {
 				return false
 			}
-			for _, a := range t.Args[0].Alts() {
+			for _, a := range tb.Norm(t.Args[0]).Alts() { // (a defaulting helper is read through)
 				if !(a.String() == fld("Algorithm") || (a.IsConst() && a.Sym == "0")) {
 					return false
 				}
@@ -263,15 +282,10 @@ func runC16(c *Check, w *World) {
 	// extras per generator: map literal keys handed to the builder
 	extras := map[*ssa.Function]map[string]*Term{}
 	for _, g := range []*ssa.Function{genT, genH} {
-		extras[g] = map[string]*Term{}
-		EachInstr(g, func(in ssa.Instruction) {
-			if mu, ok := in.(*ssa.MapUpdate); ok {
-				if k, ok := mu.Key.(*ssa.Const); ok && k.Value != nil {
-					extras[g][constant.StringVal(k.Value)] = tb.Of(mu.Value)
-					written[constant.StringVal(k.Value)] = true
-				}
-			}
-		})
+		extras[g] = extraQueryParams(tb, g)
+		for k := range extras[g] {
+			written[k] = true
+		}
 	}
 	if pt, ok := extras[genT]["period"]; ok {
 		okP, _ := urlPeriodDefault(w, tb, genT)
@@ -529,4 +543,33 @@ func isNonString(t types.Type) bool {
 	}
 	b, ok := t.Underlying().(*types.Basic)
 	return !ok || b.Info()&types.IsString == 0
+}
+
+// extraQueryParams: the type-specific query parameters a URL generator hands to the shared builder — the entries of
+// a map literal it passes (walked by the builder with Set(k, v)), or the Values.Set calls reached from it whose key,
+// with the generator's arguments bound, is a constant that the builder does not write by itself.
+func extraQueryParams(tb *TB, g *ssa.Function) map[string]*Term {
+	out := map[string]*Term{}
+	EachInstr(g, func(in ssa.Instruction) {
+		if mu, ok := in.(*ssa.MapUpdate); ok {
+			if k, ok := mu.Key.(*ssa.Const); ok && k.Value != nil && k.Value.Kind() == constant.String {
+				out[constant.StringVal(k.Value)] = tb.Of(mu.Value)
+			}
+		}
+	})
+	for _, h := range tb.Reach(g, MatchCallee("(net/url.Values).Set"), 3) {
+		if len(h.Args) != 3 || !h.Args[1].IsConst() || len(h.Levels) < 2 {
+			continue
+		}
+		// only keys that arrive through the generator's own arguments (in the builder's frame the key is not a literal)
+		if cl, ok := h.Call.(*ssa.Call); ok {
+			if _, lit := cl.Call.Args[1].(*ssa.Const); lit {
+				continue
+			}
+		}
+		if k, err := unquote(h.Args[1].Sym); err == nil {
+			out[k] = h.Args[2]
+		}
+	}
+	return out
 }
